@@ -8,7 +8,7 @@ PROPS_FILE = "props/C05.v"
 IMPL = "C05_impl.py"
 COQ_HEADER = "From Coq Require Import ZArith.\nFrom FV Require Import base.PyNum base.Util model.Loop."
 RULE = ("bounds cases: every (T,k), 1<=k<=T<=Tmax (exhaustive), model list == implementation list; "
-        "run cases: placed scene (sources, detectors, PML/PEC/periodic) run under no-grad / checkpointed(n) / reversible(n); "
+        "run cases: placed scene (sources, detectors, PML/PEC/periodic) run under no-grad / checkpointed(n) / reversible(n), each from the fresh container and again from the container returned by the first run; "
         "non-trivial = T>=2 and (k>=2 or a run with non-zero fields)")
 EXHAUSTIVE = {"quick": True, "thorough": True}
 ASSUMPTIONS = ["round(i*T/k) evaluated in double equals round-half-even of the exact quotient (T*k < 2^52)",
@@ -103,6 +103,10 @@ def predicate(case, out):
         tol = 1e-9
         if r["t"] != out["T"] or r["dE"] > tol * out["scale"] or r["dH"] > tol * out["scale"] or r["ddet"] > tol * max(out["detscale"], 1e-30):
             return ("differs-" + tag, f"run under {g} differs from plain run: {r}")
+        if "again_error" in r:
+            return ("again-error-" + tag, f"second run from the returned container failed: {r['again_error']}")
+        if "t2" in r and (r["t2"] != out["T"] or r["dE2"] > tol * out["scale"] or r["dH2"] > tol * out["scale"] or r["ddet2"] > tol * max(out["detscale"], 1e-30)):
+            return ("differs-from-returned-container-" + tag, f"run under {g} started from the container returned by a previous run differs from the plain run: {r}")
     return None
 
 
